@@ -414,6 +414,11 @@ def observe(src: str) -> dict:
             pio.write_project(Path(d) / "p", cpp, "COM3", lib_deps=list(libs))
             ini = read_ini(Path(d) / "p" / "platformio.ini")
             out["libs"] = [str(x) for x in ini.get("libs", [])]
+            # what a script needs does not depend on the board it is built for: the same request for boards of the other platform
+            out["variants"] = []
+            for plat, board in (("atmelmegaavr", "nano_every"), ("atmelmegaavr", "ATmega4809"), ("atmelavr", "leonardo")):
+                pio.write_project(Path(d) / f"p-{board}", cpp, "COM3", platform=plat, board=board, lib_deps=list(libs))
+                out["variants"].append([str(x) for x in read_ini(Path(d) / f"p-{board}" / "platformio.ini").get("libs", [])])
         finally:
             shutil.rmtree(d, ignore_errors=True)
     except Exception as e:  # noqa: BLE001  (write_project refusing a library list is C13's matter; the collected list stays the observation)
